@@ -13,4 +13,10 @@ trap 'rm -rf "$run"' EXIT
 goroot=$(cd "$REPO" && go env GOROOT)
 ov=$("$VERIF/bin/overlaygen" -repo "$REPO" -verif "$VERIF" -out "$run" -goroot "$goroot")
 (cd "$REPO" && go test -c -vet=off -tags verif -overlay "$ov" -o "$run/verif.test" .)
+# the wide instrumentation (concurrent parts of C01, C03, C06, C07, C08, C10) compiles every package of the
+# repository a second time: warm that too (a failure here is not fatal, check.sh falls back)
+mkdir -p "$run/w"
+if ovw=$("$VERIF/bin/overlaygen" -wide -repo "$REPO" -verif "$VERIF" -out "$run/w" -goroot "$goroot"); then
+  (cd "$REPO" && go test -c -vet=off -tags verif -overlay "$ovw" -o "$run/verif.wide.test" .) || echo "note: wide instrumentation does not build"
+fi
 echo "setup ok"
